@@ -8,6 +8,8 @@ from .common import is_method_call, get_kw, recv_of, cfg_of
 from . import evalrules as er
 from . import tr
 
+from .common import Guard  # noqa: E402
+
 PROP = 'C09'
 DECIDED = [
     'R1: every while loop reachable from EvalContext.evaluate is classified (bounded counter / shrinking worklist / reference chasing); a reference-chasing loop tests membership of the current element in a collection that grows in the loop body and raises on a revisit; unclassifiable loops are in a frozen table with a reason or give no verdict.',
@@ -250,10 +252,12 @@ def r4(repo, run):
 
 
 def check(repo, run, tier):
-    r1(repo, run)
-    r2r3(repo, run)
-    er.memo_discipline(repo, run, 'C09.R2')
-    r4(repo, run)
+    g = Guard()
+    g(r1, repo, run)
+    g(r2r3, repo, run)
+    g(er.memo_discipline, repo, run, 'C09.R2')
+    g(r4, repo, run)
+    g.done()
 
 
 def mutants(repo):
